@@ -54,18 +54,31 @@ static void run_tree(int id, const struct xcase* c, cbor_item_t* it, const unsig
 #ifdef P_SIZE
   size_t sz = cbor_serialized_size(it);
   VF_ASSERT(sz == elen, "cbor_serialized_size equals the encoding length");
+#ifdef P_SIZE_EXACT
+  /* every buffer size 0..size+2, each in an exactly-sized heap block: any write at >= n is an object-bounds violation */
+  for (size_t bn = 0; bn < OUTCAP + 2; bn++) if (bn <= elen + 2) {
+    unsigned char* out = vf_block(bn);
+    size_t w = cbor_serialize(it, out, bn);
+    VF_ASSERT(w == (bn >= sz ? sz : 0), "cbor_serialize returns the size iff the buffer is large enough, else 0");
+    if (w) for (size_t i = 0; i < OUTCAP; i++) if (i < sz) VF_ASSERT(out[i] == EXP[i], "bytes written are the encoding");
+    free(out);
+  }
+#else
+  /* n symbolic in 0..size+2; the block is larger (fixed capacity) and pre-filled with arbitrary bytes that are snapshotted:
+     a write outside the first n bytes, or past the encoding on success, changes a byte that must be unchanged */
   size_t bn = in_size();
   __CPROVER_assume(bn <= elen + 2);
-  unsigned char* out = vf_sym_block(bn);
+  unsigned char* out = vf_sym_block(OUTCAP + 2);
   unsigned char snap[OUTCAP + 2];
-  for (size_t i = 0; i < OUTCAP + 2; i++) if (i < bn) snap[i] = out[i];
+  for (size_t i = 0; i < OUTCAP + 2; i++) snap[i] = out[i];
   size_t w = cbor_serialize(it, out, bn);
   VF_ASSERT(w == (bn >= sz ? sz : 0), "cbor_serialize returns the size iff the buffer is large enough, else 0");
-  if (w) {
-    for (size_t i = 0; i < OUTCAP; i++) if (i < sz) VF_ASSERT(out[i] == EXP[i], "bytes written are the encoding");
-    for (size_t i = 0; i < OUTCAP + 2; i++) if (i >= sz && i < bn) VF_ASSERT(out[i] == snap[i], "nothing written beyond the encoding");
+  for (size_t i = 0; i < OUTCAP + 2; i++) {
+    if (w && i < sz) VF_ASSERT(out[i] == EXP[i], "bytes written are the encoding");
+    if (i >= (w ? sz : bn)) VF_ASSERT(out[i] == snap[i], "nothing written outside the first n bytes (nor past the encoding on success)");
   }
   free(out);
+#endif
   /* serialize_alloc: exactly size bytes requested, same bytes, size reported */
   unsigned char* ab = NULL; size_t absz = 12345;
   size_t mc0 = a_malloc_calls;
@@ -114,14 +127,16 @@ static void run_tree(int id, const struct xcase* c, cbor_item_t* it, const unsig
   {                                                                                             \
     static unsigned char D[MAX_SK + 1];                                                         \
     for (size_t i = 0; i < MAX_SK; i++) if (i < (xc)->n) D[i] = (xc)->sk[i] < 0 ? in_u8() : (unsigned char)(xc)->sk[i]; \
-    RT_ASSUME(xc, D)                                                                            \
+    RT_ASSUME(xc, D, id)                                                                            \
     cbor_item_t* it = mk(D);                                                                    \
     run_tree(id, xc, it, D, shared, built);                                                     \
   }
 #ifdef P_RT
-#define RT_ASSUME(xc, D) assume_canonical((xc)->xn, (xc)->nn, D);
+#define RT_ASSUME(xc, D, id) assume_canonical((xc)->xn, (xc)->nn, D);
+#elif defined(P_SIZE)
+#define RT_ASSUME(xc, D, id) concretize_widths((xc)->xn, (xc)->nn, D, id);
 #else
-#define RT_ASSUME(xc, D)
+#define RT_ASSUME(xc, D, id)
 #endif
 
 void harness(void) {
